@@ -29,7 +29,10 @@ fn mat_out(m: &Matrix) -> Vec<f64> {
 
 /// a matrix operand: positive shapes through `Matrix::new`, the 0x0 sentinel through `Matrix::empty()`
 fn mk(d: &[f64], r: usize, c: usize) -> Matrix {
-    if r == 0 && c == 0 && d.is_empty() { Matrix::empty() } else { Matrix::new(d.to_vec(), r as i32, c as i32) }
+    if r == 0 && c == 0 && d.is_empty() { Matrix::empty() }
+    // degenerate 0 x c / r x 0 over no data (what reshape_mut(-1, c) / (r, -1) makes of the empty matrix): through the public fields
+    else if d.is_empty() && (r == 0 || c == 0) { Matrix { data: Vector::new(vec![]), nrows: r, ncols: c } }
+    else { Matrix::new(d.to_vec(), r as i32, c as i32) }
 }
 
 /// run one of the 48 impls of the implementation; a Vector operand is given by its data (shape 1 x len)
@@ -163,7 +166,18 @@ pub fn gen(tier: &str, seed: u64, outdir: &str) {
         }
         job(&mut small, "malformed", op, 0, form, (0, 0), &[], (0, 0), &[]);
         job(&mut small, "malformed", op, 1, form, (0, 0), &[], (1, 0), &[]);
+        job(&mut small, "malformed", op, 2, form, (1, 0), &[], (0, 0), &[]);
     }}
+    // degenerate operands without elements (0 x c, r x 0), against each other, the empty matrix and small shapes: the outer-product
+    // arms call Matrix::zeros(0, 0) (accepted since the repair) or zeros(0, c) / zeros(r, 0) (refused)
+    for op in 0..4 {
+        let form = op; // rotate the ownership forms
+        for s1 in [(0usize, 1usize), (1, 0), (0, 3), (3, 0)] { for s2 in [(0usize, 1usize), (1, 0), (0, 0), (1, 1), (1, 3), (3, 1), (0, 3), (3, 0)] {
+            let b = distinct(&mut r, s2.0 * s2.1, 1.0, 0.0);
+            job(&mut small, "malformed-degenerate", op, 0, form, s1, &[], s2, &b);
+            job(&mut small, "malformed-degenerate", op, 0, form, s2, &b, s1, &[]);
+        }}
+    }
     let step = (small.len() / big.len().max(1)).max(1);
     let mut bigs = big.into_iter();
     for (k, j) in small.into_iter().enumerate() {
@@ -217,6 +231,18 @@ pub fn oracle(tier: &str, seed: u64) -> (u64, Vec<Finding>) {
             tried += 2;
         }}
     }}}
+    // the empty 0x0 Matrix (`Matrix::empty()`), Matrix o Matrix only: the same rule with extent 0 -- compatible with 0x0 and
+    // with 1x1 (the result is 0x0), incompatible with every other shape (an empty Vector operand, promoted to 1x0, is
+    // not judged: the crate has no r x 0 matrices and refuses the promotion).  Silent since `Matrix::new` accepts 0x0 on
+    // empty data (the repaired C04 finding empty-matrix:value-form-panics); on the original code 0x0 o 0x0 and 0x0 o 1x1 panicked.
+    for (rm, cm) in [(0usize, 0usize), (1, 1), (1, 3), (3, 1), (2, 3), (1, 2), (2, 1)] {
+        let m = distinct(&mut r, rm * cm, 0.5, 100.0);
+        for op in 0..4 { for form in 0..4 {
+            judge(&mut out, op, 0, form, (0, 0), &[], (rm, cm), &m);
+            judge(&mut out, op, 0, form, (rm, cm), &m, (0, 0), &[]);
+            tried += 2;
+        }}
+    }
     // random larger shapes up to 40x40, all three operand kinds, with and without special values
     let iters = if tier == "thorough" { 40000 } else { 4000 };
     for it in 0..iters {
